@@ -932,15 +932,29 @@ def sd12(F, R):
         """x = retries_left.checked_sub(c), c >= 1"""
         return x[0] == "call" and x[1] and x[1].endswith("::checked_sub") and is_counter(x[2][0]) and x[2][1][0] == "c" and isinstance(x[2][1][1], int) and x[2][1][1] >= 1
 
+    from .ev import cmp_forms
+
+    def counter_like(x):
+        """the counter, or a copy of it taken for the test (`match self.retries_left { 0 => .., remaining => .. }`)"""
+        x = strip_refs(x)
+        if is_counter(x):
+            return True
+        if x[0] == "var":
+            ds_ = var_def_terms(d, x[1])
+            return len(ds_) == 1 and is_counter(ds_[0])
+        return False
+
     def zero_edge(g):
-        """guard edge taken exactly when the counter cannot be decremented"""
-        if g.kind == "bool" and g.term[0] == "cmp" and is_counter(g.term[2]) and g.term[3][:2] == ("c", 0):
-            return (g.term[1] == "Eq" and g.truth is True) or (g.term[1] in ("Gt", "Ne") and g.truth is False)
+        """guard edge taken exactly when the counter cannot be decremented (if == 0, if > 0 .. else, match 0 =>, checked_sub None)"""
+        for (op, a, b, t) in cmp_forms(g):
+            if counter_like(a) and strip_refs(b)[:2] == ("c", 0) and ((op == "Eq" and t) or (op in ("Gt", "Ne") and not t)):
+                return True
         return g.kind == "variant" and g.variant == "None" and checked(g.term)
 
     def nonzero_edge(g):
-        if g.kind == "bool" and g.term[0] == "cmp" and is_counter(g.term[2]) and g.term[3][:2] == ("c", 0):
-            return (g.term[1] == "Eq" and g.truth is False) or (g.term[1] in ("Gt", "Ne") and g.truth is True)
+        for (op, a, b, t) in cmp_forms(g):
+            if counter_like(a) and strip_refs(b)[:2] == ("c", 0) and ((op == "Eq" and not t) or (op in ("Gt", "Ne") and t)):
+                return True
         return g.kind == "variant" and g.variant == "Some" and checked(g.term)
 
     zero_err = False
@@ -953,7 +967,7 @@ def sd12(F, R):
     stores = [(b, i, d.term_of_rvalue(s["rv"], b)) for b, i, s in d.stmts() if s["k"] == "Assign" and s["p"]["proj"] and d.place_str(s["p"]).endswith("retries_left")]
     for b, i, v in stores:
         m = tmatch(v, ("bin", "Sub", "_", ("c", 1)))
-        dec = (m is not None and is_counter(v[2])) or (v[0] == "place" and checked(v[1]) and tuple(v[2]) == ("as:Some", "0"))
+        dec = (m is not None and counter_like(v[2])) or (v[0] == "place" and checked(v[1]) and tuple(v[2]) == ("as:Some", "0"))
     R.require(zero_err and dec, d, "ranking", "Delay::delay must fail when retries_left == 0 and otherwise decrement it", d.loc(0))
     # ... in that order: the decrement happens only after the counter was seen to be non-zero (a budget of 0 must fail, not wrap to 2^32-1)
     for b, i, v in stores:
